@@ -118,6 +118,8 @@ void fpsym_nonconst(double v,const char*label){ Guard g; obls.push_back({3,A(0),
 void fpsym_check(int cond,const char*label){ Guard g; checks.push_back({cond,label}); tvalid=0; }
 void fpsym_output(double v,const char*tag){ Guard g; outs.push_back({tag,A(0),v}); tvalid=0; }
 void fpsym_note(const char*key,long v){ Guard g; notes.push_back({key,v}); tvalid=0; }
+double fpsym_concrete(double v){ tvalid=0; tret[0]=tret[1]=0; return v; }
+long fpsym_exprid(double v){ long r=(long)A(0); tvalid=0; return r; }
 long fpsym_pc_size(void){ return (long)pc.size(); }
 void fpsym_assume(int cond,const char*label){ tvalid=0; if(cond) return; { Guard g; has_assumed=true; assumed_away=label; dump("assumed_away"); } _exit(0); }
 void fpsym_finish(void){ Guard g; dump("ok"); }
